@@ -52,6 +52,8 @@ long vh_live_count(void);
 void vh_live_dump(void);
 long vh_live_bytes(void);
 #define LIB(stmt) do { vh_in_lib++; stmt; vh_in_lib--; } while (0)
+/* observation made of several API calls by the harness itself: not subject to the injected fault */
+#define OBS(stmt) do { vh_fault_at = 0; LIB(stmt); } while (0)
 
 /* modules */
 int vh_conv(void);
